@@ -132,7 +132,7 @@ func runC06(c *Ctx) {
 	}
 
 	// ---- R4 -----------------------------------------------------------------------------------
-	c.Rule("R4", "every punishment path resolves the reported address with GetProviderAddrFromConsumerAddr for the same consumer, and punishes exactly the resolved address", 12)
+	c.Rule("R4", "every punishment path resolves the reported address with GetProviderAddrFromConsumerAddr for the same consumer, and punishes exactly the resolved address; genesis import restores the prune queue (consumer, deadline, address) as exported", 12)
 	if f := c.Fn("pk.Keeper.HandleSlashPacket"); f != nil {
 		res := resolvedAddr(PParam("consumerId"), PField(PParam("data"), "Validator", "Address"))
 		sdkAddr := PCall("pt.ProviderConsAddress.ToSdkConsAddr", -1, res)
@@ -190,6 +190,17 @@ func runC06(c *Ctx) {
 	}
 
 	// ---- R5 -----------------------------------------------------------------------------------
+	// genesis restores the prune queue with the exported deadline
+	if f := c.Fn("pk.Keeper.InitGenesis"); f != nil {
+		item := PElemOf(PField(PParam("genState"), "ConsumerAddrsToPruneV2"))
+		c.ArgRoles(f, "pk.Keeper.AppendConsumerAddrsToPrune", "genesis-prune-queue", "AppendConsumerAddrsToPrune(item.ChainId, item.PruneTs, consumer(addr of item.ConsumerAddrs.Addresses))",
+			PField(item, "ChainId"), PField(item, "PruneTs"), PCall("pt.NewConsumerConsAddress", -1, nil, PElemOf(PField(PField(item, "ConsumerAddrs"), "Addresses"))))
+	}
+	if f := c.Fn("pk.Keeper.ExportGenesis"); f != nil {
+		if g := c.one(f, false, "pk.Keeper.GetAllConsumerAddrsToPrune"); g != nil {
+			c.Check(elementOfCall(arg(g, 1), "pk.Keeper.GetAllConsumersWithIBCClients"), fk(f, "exports-prune-queue"), g, "exports the prune queue of every consumer with a client; found "+describe(arg(g, 1)))
+		}
+	}
 	c.Rule("R5", "pruning runs every block for every consumer that has a client (including stopped ones): EndBlockCIS loops over GetAllConsumersWithIBCClients; provider EndBlock always runs EndBlockCIS", 4)
 	c.OnlyCalledFrom("pk.Keeper.PruneKeyAssignments", "pk.Keeper.EndBlockCIS")
 	if f := c.Fn("pk.Keeper.EndBlockCIS"); f != nil {
